@@ -1,10 +1,12 @@
 from __future__ import annotations
 
 import datetime
+import functools
 
 from datetime import time
 from datetime import timedelta
 from typing import TYPE_CHECKING
+from typing import Callable
 from typing import Optional
 from typing import cast
 from typing import overload
@@ -309,13 +311,17 @@ class Time(FormattableMixin, time):
 
     def __reduce__(
         self,
-    ) -> tuple[type[Time], tuple[int, int, int, int, datetime.tzinfo | None]]:
+    ) -> tuple[Callable[..., Time], tuple[int, int, int, int, datetime.tzinfo | None]]:
         return self.__reduce_ex__(2)
 
     def __reduce_ex__(
         self, protocol: SupportsIndex
-    ) -> tuple[type[Time], tuple[int, int, int, int, datetime.tzinfo | None]]:
-        return self.__class__, self._get_state(protocol)
+    ) -> tuple[Callable[..., Time], tuple[int, int, int, int, datetime.tzinfo | None]]:
+        # fold is keyword-only in the constructor, it cannot travel in the state
+        return (
+            functools.partial(self.__class__, fold=self.fold),
+            self._get_state(protocol),
+        )
 
 
 Time.min = Time(0, 0, 0)
